@@ -82,6 +82,7 @@ func runCase(t *testing.T, run *core.Run, name string, idx int, rng *rand.Rand) 
 		detail["case"], detail["height"] = name, h
 		run.Violation(kind, "^"+name+"$", detail)
 	}
+	nextRestart := 1 + rng.Intn(3)
 	for b := 0; b < blocks; b++ {
 		h := w.Height()
 		proposer := b % 3
@@ -145,7 +146,9 @@ func runCase(t *testing.T, run *core.Run, name string, idx int, rng *rand.Rand) 
 		}
 		// restart node 1 before committing on some heights (commit after a restart = replay on a freshly opened store)
 		restarted := false
-		if b%4 == 3 {
+		if b == nextRestart {
+			// gaps of 1, 2, 3 or 4 blocks between restarts: what a re-opened store finds in one flushed table differs
+			nextRestart = b + []int{1, 1, 2, 2, 3, 4}[rng.Intn(6)]
 			if err := ch.Restart(1); err != nil {
 				fail("restart-failed", h, map[string]any{"error": err.Error()})
 				return
